@@ -31,7 +31,7 @@ class Boom(RuntimeError):
 
 
 def base_world(meta):
-    w = CW.init_world(meta["wf"], meta["backend"], hashing=True)
+    w = CW.init_world(meta["wf"], meta["backend"], hashing=True, accounting=meta.get("accounting", True))
     if meta["init"] == "inflight":
         w, r = CW.apply_action(w, ("gwf", ["run", w.wf.names()[0]]))
         assert r.exit_code == 0, r.as_dict()
@@ -109,6 +109,8 @@ def faults_batch(acc, batch):
         calls = record_calls(base)
         for idx, exe in calls:
             for kind in FAULT_KINDS:
+                if kind == "empty" and exe in ("squeue", "bjobs", "sacct"):
+                    continue  # an empty answer from a query command is not a fault: it is how the scheduler says "no such job"
                 case = dict(kind="fault", idx=idx, exe=exe, fault=kind)
                 w0 = base.copy()
                 with W.Session(w0) as s:
@@ -121,7 +123,15 @@ def faults_batch(acc, batch):
                         s.sim.s["faults"] = {str(idx): kind}
                     r = s.gwf(["run"])
                     acc.extra["invocations"] += 1
+                    in_run = [e["name"] for e in s.sim.journal_submits()]
                     w1 = s.snapshot()
+                # the interrupted run itself must not duplicate a job that was accepted before it and is still pending/running
+                active_base = {j["name"] for j in base.sim["jobs"].values() if j["user"] == "me" and j["state"] in simsched.ACTIVE}
+                dup_now = sorted(set(in_run) & active_base)
+                if dup_now:
+                    acc.violation(sig=dict(what="the faulted run itself submitted a second job for a target whose accepted job is still pending/running", backend=meta["backend"], kind="fault", exe=exe, fault=kind),
+                                  case=dict(meta=meta, **case), observed=dict(duplicated=dup_now, submitted=in_run),
+                                  msg=f"[{meta['wf']}/{meta['backend']}/{meta['init']}] {exe} #{idx} failing with {kind}: the run went on and submitted {in_run} although {sorted(active_base)} are still in flight")
                 w1.sim["faults"] = {}
                 w1.normalize()
                 acc.case(key=json.dumps(dict(meta=meta, **case), sort_keys=True), outcome=f"fault {exe} {kind} exit={r.exit_code} crash={r.crashed()}", sample=dict(meta=meta, **case))
@@ -166,6 +176,8 @@ def scenarios(quick):
                 if quick and wf == "fork" and init == "fresh" and be != "slurm":
                     continue
                 out.append(dict(wf=wf, backend=be, init=init))
+                if be == "slurm" and init == "inflight":
+                    out.append(dict(wf=wf, backend=be, init=init, accounting=False))
     if not quick:
         out += [dict(wf="diamond", backend=be, init="inflight", started=True) for be in ("slurm", "sge", "lsf")]
     return out
